@@ -19,13 +19,14 @@ def one(base, title, intro):
         checks = res.get("checks", {})
         caught = [c for c, v in checks.items() if v.get("caught")]
         keys = sorted({k for v in checks.values() for k in v.get("violation_keys", [])})[:3]
-        if res:
+        prev_tests = (meta.get("confirmed") or {}).get("tests")  # a re-evaluation without --tests keeps the earlier
+        if res:                                                   # test-suite result of the same patch
             meta["confirmed"] = dict(
                 how=("scratch worktree of /repo HEAD %s, `git apply patch.diff`; repository test suite run there "
                      "(PYTHONPATH=<worktree>/src /venv/bin/python -m pytest tests, the two always-failing tests "
                      "deselected); demonstration run without and with the patch; then `VERIF_REPO=<worktree> "
                      "/venv/bin/python -m vlib.check <ID> --tier quick`; worktree removed" % res.get("repo_head")),
-                tests=res.get("tests_tail"), demo_exit_without_change=res.get("demo_exit_without_change"),
+                tests=res.get("tests_tail") or prev_tests, demo_exit_without_change=res.get("demo_exit_without_change"),
                 demo_exit_with_change=res.get("demo_exit_with_change"),
                 checks={c: dict(caught=v.get("caught"), exit=v.get("exit"), seconds=v.get("seconds"),
                                 violation_keys=v.get("violation_keys", [])[:6]) for c, v in checks.items()},
@@ -34,7 +35,7 @@ def one(base, title, intro):
                 json.dump(meta, f, indent=1)
         summ = (meta.get("summary") or "").replace("\n", " ").replace("|", "/")
         needs = (meta.get("needs_to_manifest") or "").replace("\n", " ").replace("|", "/")
-        rows.append((n, meta.get("property"), summ[:230], needs[:200], res.get("tests_tail"),
+        rows.append((n, meta.get("property"), summ[:230], needs[:200], res.get("tests_tail") or prev_tests,
                      (res.get("demo_exit_without_change"), res.get("demo_exit_with_change")),
                      ", ".join(caught) if caught else ("NOT CAUGHT" if res else "not evaluated"), "; ".join(keys)))
     with open(os.path.join(d, "README.md"), "w") as f:
@@ -59,7 +60,7 @@ if __name__ == "__main__":
         "edits), `<ID>d` a fourth (rarely used options, dtypes, orderings, numerical edges, environment), `<ID>e` a fifth (interactions of "
         "two input classes, extreme values, id formats, missing / non-finite values, scale), `<ID>f` a sixth (caches, views / "
         "copies, comparisons and off-by-one, fallbacks, config-driven selection, other entry points), `<ID>g` a seventh "
-        "(semantics of pandas / numpy calls on ties, NaN, empty groups, duplicated keys, dtypes). Each directory holds patch.diff (against /repo HEAD at the time), "
+        "(semantics of pandas / numpy calls on ties, NaN, empty groups, duplicated keys, dtypes), `<ID>h` an eighth (plausible optimisations and refactors: hoisting, memoising, early returns, parameter plumbing, cooperating edits; triggered by call sequences on one object, option combinations, unusual-but-legal inputs). Each directory holds patch.diff (against /repo HEAD at the time), "
         "the demonstration and meta.json; `tools/eval_seeded.py` re-confirms everything (tests survive, demo fails "
         "with / passes without, which checks alarm). None of these changes is ever committed to /repo.")
     if os.path.isdir(os.path.join(HERE, "mutants")):
